@@ -41,6 +41,53 @@ def _none_filter(flow, comp, over_canon, *, want_not_none=True):
     return ok, (tgt, elem)
 
 
+def _flip(kind):
+    return {'none': 'notnone', 'notnone': 'none'}.get(kind)
+
+
+def _lookup_mask(ctx, fi, flow, e, over_canon, depth=6):
+    """Which lookups a boolean mask over the lookups marks: 'none' (the misses), 'notnone' (the hits), or None when it is neither."""
+    if depth <= 0:
+        return None
+    e = flow.resolve(e)
+    if isinstance(e, ast.UnaryOp) and isinstance(e.op, (ast.Invert, ast.Not)):
+        return _flip(_lookup_mask(ctx, fi, flow, e.operand, over_canon, depth - 1))
+    if isinstance(e, ast.Compare) and len(e.ops) == 1 and flow.canon(e.left) == over_canon and is_none(e.comparators[0]):
+        return 'none' if isinstance(e.ops[0], ast.Eq) else 'notnone' if isinstance(e.ops[0], ast.NotEq) else None
+    if isinstance(e, ast.Call):
+        q = callee(ctx, fi, e) or ''
+        if q in ('numpy.equal', 'numpy.not_equal') and len(e.args) == 2 and flow.canon(e.args[0]) == over_canon and is_none(e.args[1]):
+            return 'none' if q == 'numpy.equal' else 'notnone'
+        if q in ('numpy.logical_not', 'numpy.invert') and len(e.args) == 1:
+            return _flip(_lookup_mask(ctx, fi, flow, e.args[0], over_canon, depth - 1))
+        if q in ('numpy.array', 'numpy.asarray', 'numpy.fromiter') and e.args:
+            return _lookup_mask(ctx, fi, flow, e.args[0], over_canon, depth - 1)
+    if isinstance(e, (ast.ListComp, ast.GeneratorExp)) and len(e.generators) == 1 and not e.generators[0].ifs \
+            and flow.canon(e.generators[0].iter) == over_canon and isinstance(e.generators[0].target, ast.Name) \
+            and isinstance(e.elt, ast.Compare) and len(e.elt.ops) == 1 and is_none(e.elt.comparators[0]) \
+            and isinstance(e.elt.left, ast.Name) and e.elt.left.id == e.generators[0].target.id:
+        return 'none' if isinstance(e.elt.ops[0], ast.Is) else 'notnone' if isinstance(e.elt.ops[0], ast.IsNot) else None
+    return None
+
+
+def _lookup_positions(ctx, fi, flow, e, over_canon, depth=6):
+    """Which lookups an ascending sequence of positions names: 'none', 'notnone' or None."""
+    if depth <= 0:
+        return None
+    e = flow.resolve(e)
+    if isinstance(e, ast.Call) and isinstance(e.func, ast.Attribute) and e.func.attr == 'tolist' and not e.args:
+        return _lookup_positions(ctx, fi, flow, e.func.value, over_canon, depth - 1)
+    if isinstance(e, ast.Call) and dotted(e.func) in ('list', 'tuple') and len(e.args) == 1:
+        return _lookup_positions(ctx, fi, flow, e.args[0], over_canon, depth - 1)
+    if isinstance(e, ast.Call) and (callee(ctx, fi, e) or '') == 'numpy.flatnonzero' and len(e.args) == 1:
+        return _lookup_mask(ctx, fi, flow, e.args[0], over_canon, depth - 1)
+    for want, kind in ((True, 'notnone'), (False, 'none')):
+        ok, tgt = _none_filter(flow, e, over_canon, want_not_none=want)
+        if ok and isinstance(tgt[0], ast.Tuple) and isinstance(e.elt, ast.Name) and isinstance(tgt[0].elts[0], ast.Name) and e.elt.id == tgt[0].elts[0].id:
+            return kind
+    return None
+
+
 def run(ctx: Context) -> None:
     p = ctx.p
     base = p.cls(BASE)
@@ -394,17 +441,8 @@ def run(ctx: Context) -> None:
                 parg = kwarg(exc, 'points') or (exc.args[1] if len(exc.args) > 1 else None)
                 if iarg is None or parg is None:
                     continue
-                src = flow.resolve(iarg)
-                # numpy.flatnonzero(numpy.equal(indexes, None))
-                ok_i = False
-                if isinstance(src, ast.Call) and callee(ctx, ep, src) == 'numpy.flatnonzero' and src.args:
-                    inner = flow.resolve(src.args[0])
-                    if isinstance(inner, ast.Call) and callee(ctx, ep, inner) == 'numpy.equal' and len(inner.args) == 2 \
-                            and flow.canon(inner.args[0]) == idx_c and is_none(inner.args[1]):
-                        ok_i = True
-                    if isinstance(inner, ast.Compare) and len(inner.ops) == 1 and isinstance(inner.ops[0], ast.Eq) \
-                            and flow.canon(inner.left) == idx_c and is_none(inner.comparators[0]):
-                        ok_i = True
+                # the positions reported are those of the lookups that are None, however they are found
+                ok_i = _lookup_positions(ctx, ep, flow, iarg, idx_c) == 'none'
                 pl = flow.resolve(parg)
                 ok_p = (isinstance(pl, ast.ListComp) and len(pl.generators) == 1 and not pl.generators[0].ifs
                         and flow.canon(pl.generators[0].iter) == flow.canon(iarg)
@@ -418,6 +456,16 @@ def run(ctx: Context) -> None:
                                  and const_value(st.test.comparators[0], None) == 'error' for _, st, inb in tests)
                 has_nonempty = any(inb and (emptiness_test(flow, st.test) or ('', None))[0] == 'nonempty'
                                    and flow.canon((emptiness_test(flow, st.test))[1]) == flow.canon(iarg) for _, st, inb in tests)
+                # ... or `<mask of the misses>.any()` / numpy.any(<mask>)
+                from .common import path_conditions as _pc05
+                for t_, pol_ in _pc05(ep, rs):
+                    if pol_ and isinstance(t_, ast.Call) and isinstance(t_.func, ast.Attribute) and t_.func.attr == 'any' and not t_.args \
+                            and _lookup_mask(ctx, ep, flow, t_.func.value, idx_c) == 'none':
+                        has_nonempty = True
+                    if pol_ and isinstance(t_, ast.Call) and callee(ctx, ep, t_) == 'numpy.any' and len(t_.args) == 1 and _lookup_mask(ctx, ep, flow, t_.args[0], idx_c) == 'none':
+                        has_nonempty = True
+                has_policy = has_policy or any(pol_ and isinstance(t_, ast.Compare) and isinstance(t_.ops[0], ast.Eq) and flow.canon(t_.left) == ('param', 'missing_points')
+                                               and const_value(t_.comparators[0], None) == 'error' for t_, pol_ in _pc05(ep, rs))
                 ok_err_guard = has_policy and has_nonempty
         ctx.check('R05.2', ok_err, "'error' reports exactly the positions whose lookup is None, and those points", ep,
                   raises[0] if raises else ep.node, construct='NonIntersectingPoints(indexes=flatnonzero(lookups == None), points=[points[i] for i in indexes])')
@@ -430,6 +478,11 @@ def run(ctx: Context) -> None:
         ok_f, tgt = _none_filter(flow, sl, idx_c)
         ok_elt = ok_f and isinstance(sl.elt, ast.Attribute) and sl.elt.attr == 'index' and isinstance(sl.elt.value, ast.Name) \
             and sl.elt.value.id == tgt[1].id
+        if not ok_elt and isinstance(sl, (ast.ListComp, ast.GeneratorExp)) and len(sl.generators) == 1 and not sl.generators[0].ifs and isinstance(sl.generators[0].target, ast.Name):
+            # [lookups[i].index for i in <positions of the lookups that are not None>]
+            e_ = sl.elt
+            ok_elt = (isinstance(e_, ast.Attribute) and e_.attr == 'index' and isinstance(e_.value, ast.Subscript) and flow.canon(e_.value.value) == idx_c
+                      and norm_text(e_.value.slice) == sl.generators[0].target.id and _lookup_positions(ctx, ep, flow, sl.generators[0].iter, idx_c) == 'notnone')
         ctx.check('R05.2', bool(ok_elt), "select_indexes receives <item>.index for every lookup that is not None, in order", ep, sel[0],
                   construct=f"selected = {norm_text(sl)[:110]}")
         dg = kwarg(sel[0], 'drop_geometry')
@@ -450,6 +503,8 @@ def run(ctx: Context) -> None:
             ok_f2, tgt2 = _none_filter(flow, labels, idx_c)
             if ok_f2 and isinstance(tgt2[0], ast.Tuple) and isinstance(labels.elt, ast.Name) \
                     and isinstance(tgt2[0].elts[0], ast.Name) and labels.elt.id == tgt2[0].elts[0].id:
+                ok_lab = flow.canon(ac.keys[0]) == pdc
+            if not ok_lab and _lookup_positions(ctx, ep, flow, ac.values[0].elts[1], idx_c) == 'notnone':
                 ok_lab = flow.canon(ac.keys[0]) == pdc
         ctx.check('R05.2', ok_lab, "the positional labels are the enumerate positions of the lookups that are not None (original positions)", ep, assigns[0],
                   construct=f"labels = {detail[:120]}")
